@@ -71,7 +71,14 @@ fn check_solar_index(ctx: &Ctx, y: i32, loc: &mut Local) {
   for i in 0..12usize {
     loc.transitions += 1;
     let want = if i < 10 && y >= SOLAR[i].3 { Some((i, (y, SOLAR[i].1, SOLAR[i].2))) } else { None };
-    let r = guard(|| SolarFestival::from_index(y as isize, i).map(|f| (f.get_index(), ymd_of(&f.get_day()))));
+    let r = guard(|| {
+      SolarFestival::from_index(y as isize, i).map(|f| {
+        if f.get_type().get_name() != "日期" {
+          panic!("civil festival {} has type {}", f.get_name(), f.get_type().get_name());
+        }
+        (f.get_index(), ymd_of(&f.get_day()))
+      })
+    });
     let key = format!("{:04} #{}", y, i);
     let rp = vec!["sindex".to_string(), y.to_string()];
     match r {
@@ -179,6 +186,16 @@ fn check_lunar_year(ctx: &Ctx, t: &LunTable, tm: &Terms, y: isize, by_date: bool
       LunarFestival::from_index(y, i).map(|f| {
         let d = f.get_day();
         let own = d.get_festival().map(|g| g.get_index());
+        // kind of the festival and, for term festivals, the term it is tied to
+        let (want_kind, want_term) = match LUNAR[i.min(12)].1 {
+          LKind::Day(_, _) => ("日期", None),
+          LKind::Term(ti) => ("节气", Some(ti)),
+          LKind::Eve => ("除夕", None),
+        };
+        let st = f.get_solar_term().map(|t| (t.get_index(), ymd_of(&t.get_julian_day().get_solar_day()) == ymd_of(&f.get_day().get_solar_day())));
+        if f.get_type().get_name() != want_kind || st != want_term.map(|ti| (ti % 24, true)) {
+          panic!("festival {} has type {} and solar term {:?}; model type {} term index {:?} falling on the festival's day", f.get_name(), f.get_type().get_name(), st, want_kind, want_term);
+        }
         ((d.get_year() as i32, d.get_month() as i8, d.get_day() as u8), f.get_index(), f.get_name(), own)
       })
     });
